@@ -190,6 +190,7 @@ class WindowedClickThroughRate(
         Args:
             metrics (Iterable[Metric]): metric instances whose states are to be merged.
         """
+        metrics = list(metrics)  # the iterable is traversed more than once
         merge_max_num_updates = self.max_num_updates
         for metric in metrics:
             merge_max_num_updates += metric.max_num_updates
